@@ -177,8 +177,8 @@ type c14Proxy struct {
 	done    chan struct{}
 }
 
-// c14NoAsyncWB is set when the tree under test evidently has no asynchronous
-// write-back (waits for it timed out repeatedly); waiting is then skipped.
+// c14NoAsyncWB counts consecutive expected write-backs that never showed up; from 3 on
+// the tree under test evidently has no asynchronous write-back and waiting is skipped.
 var c14NoAsyncWB atomic.Int32
 
 type c14World struct {
@@ -357,6 +357,7 @@ func (w *c14World) hook(tier, op, key string) error {
 	}
 	w.mu.Unlock()
 	if px != nil {
+		c14NoAsyncWB.Store(0) // asynchronous write-backs do exist on this tree
 		close(px.arrived)
 		select {
 		case <-px.release:
